@@ -410,6 +410,33 @@ func (g *gen) minsize(ct geom.CoordinatesType) *lib.Node {
 	return core
 }
 
+// extremes builds a two- or three-point geometry whose ordinates, scaled by 10^7, lie near -2^62
+// and +2^62 (|k| between 4.0e11 and 9.2e11, q = 0).
+func (g *gen) extremes(ct geom.CoordinatesType) *lib.Node {
+	r := g.r
+	g.q, g.unit = 0, 1
+	big := func(sign int64) int64 { return sign * (400000000000 + int64(r.U64()%520000000000)) }
+	pt := func(sign int64) *lib.Node {
+		var v [4]float64
+		v[0], v[1] = float64(big(sign)), float64(big(-sign))
+		if ct.Is3D() {
+			v[2] = float64(big(sign))
+		}
+		if ct.IsMeasured() {
+			v[3] = float64(big(-sign) / 1000)
+		}
+		return &lib.Node{Kind: lib.KPoint, CT: ct, Full: true, C: [][4]float64{v}}
+	}
+	a, b := pt(1), pt(-1)
+	switch r.Intn(3) {
+	case 0:
+		return &lib.Node{Kind: lib.KMPoint, CT: ct, Kids: []*lib.Node{a, b}}
+	case 1:
+		return &lib.Node{Kind: lib.KLine, CT: ct, C: [][4]float64{a.C[0], b.C[0], pt(1).C[0]}}
+	}
+	return &lib.Node{Kind: lib.KColl, CT: ct, Kids: []*lib.Node{a, &lib.Node{Kind: lib.KColl, CT: ct, Kids: []*lib.Node{b}}}}
+}
+
 func pow10i(q int) int64 {
 	v := int64(1)
 	for i := 0; i < q; i++ {
@@ -619,6 +646,10 @@ func main() {
 			}
 		} else if class == "minsize" {
 			n = g.minsize(ct)
+		} else if class == "big" && i%3 == 0 {
+			// opposite-sign extremes near +-2^62 after scaling by 10^7: every ordinate fits int64,
+			// but max - min of the bounding box does not (the stored delta wraps)
+			n = g.extremes(ct)
 		} else {
 			n = g.geomNode(ct, 3, emptyP, force)
 		}
@@ -628,6 +659,16 @@ func main() {
 		}
 		if class == "big" {
 			o.pxy = r.Range(5, 7)
+		}
+		if class == "big" && i%3 == 0 {
+			o.pxy, o.bbox = 7, true
+			if ct.Is3D() {
+				o.pz = ip(7)
+			}
+			if ct.IsMeasured() {
+				o.pm = ip(r.Range(0, 7))
+			}
+			stats["big_extremes"]++
 		}
 		if class == "minsize" && !r.Chance(1, 5) {
 			// keep every delta in one byte; mostly without the headers that add trailing bytes
